@@ -8,7 +8,7 @@ from ..utils import exceptions as exc
 from ..utils.compat import is_classvar, is_final
 from ..utils.datastructures import cached_property, unprovided
 from ..utils.functional import pop
-from .base import BaseParser
+from .base import BaseParser, _forward_refs_lock
 from .field import ParserField
 from .options import Options, RuntimeContext
 from .rule import Rule, resolve_forward_type
@@ -294,10 +294,13 @@ class FunctionParser(BaseParser):
         # self.async_generator_yield_type = None
         # AsyncGenerator[Yield, Send] or AsyncIterator[Yield]
 
-        if self.pos_annotation:
-            self.position_type = self.parse_annotation(annotation=self.pos_annotation)
+        with _forward_refs_lock:
+            # like the set-up: parsing an annotation touches the reference objects that typing shares
+            # between declarations, while a first parse elsewhere may be evaluating them
+            if self.pos_annotation:
+                self.position_type = self.parse_annotation(annotation=self.pos_annotation)
 
-        self.generate_return_types()
+            self.generate_return_types()
 
     # @property
     # def do_parse_generator(self):
